@@ -1676,8 +1676,12 @@ impl<P: Payload> World<P> {
     /// the end.  Reaches arenas far larger than step-by-step histories can (index ranges beyond
     /// u8 / u16, long sibling lists, deep chains).
     fn do_grow(&mut self, under: Arg, n: u32, shape: u8, cfg: &StepCfg) -> StepOut {
+        #[cfg(feature = "macros")]
+        if shape % 8 == 7 {
+            return self.do_tree_macro(under, n, cfg);
+        }
         let mut o = StepOut::default();
-        let shape = shape % 7;
+        let shape = shape % 8 % 7;
         let n = if shape == 2 { n.min(1500) } else { n.min(80_000) } as usize;
         o.class = format!("grow/{}-{}", ["wide", "deep", "top-chain", "bushy", "comb", "deep-tail", "wide-late-middle"][shape as usize], if n >= 60_000 { "xl" } else if n >= 200 { "l" } else if n >= 20 { "m" } else { "s" });
         o.desc = format!("grow({}, {n}, shape {shape})", nid(under.id));
@@ -1812,6 +1816,102 @@ impl<P: Payload> World<P> {
         o
     }
 
+    /// Nodes created through the `tree!` macro (C07/C08 name it as a way to create nodes): a value root with
+    /// a small literal, or a literal appended below an existing node.  Payload destructors are accounted for.
+    #[cfg(feature = "macros")]
+    fn do_tree_macro(&mut self, under: Arg, n: u32, cfg: &StepCfg) -> StepOut {
+        use indextree::macros::tree;
+        let mut o = StepOut::default();
+        let value_root = n % 2 == 0;
+        o.class = format!("tree_macro/{}", if value_root { "value-root" } else { "existing-root" });
+        o.desc = format!("tree!({})", if value_root { "new root => { a, b => { c } }".to_string() } else { format!("{} => {{ a, b => {{ c }}, d }}", nid(under.id)) });
+        if self.m.live_count() + 4 > cfg.max_live.max(48) {
+            return skip("tree_macro");
+        }
+        let mut guard = 0u32;
+        while self.m.nfree + self.m.nmaybe > 0 && guard < 64 {
+            let s = self.do_new_light(guard, cfg);
+            if !s.failures.is_empty() {
+                o.failures = s.failures;
+                return o;
+            }
+            guard += 1;
+        }
+        if self.m.nfree + self.m.nmaybe > 0 {
+            return skip("tree_macro");
+        }
+        let count0 = self.arena.count();
+        let s0 = self.m.next_serial;
+        let p: Vec<P> = (0..4).map(|k| self.mk(s0 + k, 40 + k as u32)).collect();
+        let mut it = p.into_iter();
+        let (p0, p1, p2, p3) = (it.next().unwrap(), it.next().unwrap(), it.next().unwrap(), it.next().unwrap());
+        let arena = &mut self.arena;
+        let uid = under.id;
+        let r = catch_unwind(AssertUnwindSafe(move || {
+            if value_root {
+                tree!(arena, p0 => { p1, p2 => { p3 } })
+            } else {
+                tree!(arena, uid => { p0, p1 => { p2 }, p3, })
+            }
+        }));
+        let root = match r {
+            Ok(id) => id,
+            Err(e) => {
+                o.failures.push(Failure::new(&["C05", "C07", "C15"], "tree_macro/panic", format!("{} panicked: {}", o.desc, panic_msg(e))));
+                return o;
+            }
+        };
+        if self.arena.count() != count0 + 4 {
+            o.failures.push(Failure::new(&["C07", "C15"], "tree_macro/count", format!("{} created {} nodes for 4 written values", o.desc, self.arena.count() as i64 - count0 as i64)));
+            return o;
+        }
+        // the four new slots, in creation (= textual) order
+        let mut ids = Vec::new();
+        for k in 0..4 {
+            match std::num::NonZeroUsize::new(count0 + k + 1).and_then(|p| self.arena.get_node_id_at(p)) {
+                Some(id) => ids.push(id),
+                None => {
+                    o.failures.push(Failure::new(&["C07", "C15"], "tree_macro/slot", format!("slot {} created by {} is not live", count0 + k, o.desc)));
+                    return o;
+                }
+            }
+        }
+        for (k, id) in ids.iter().enumerate() {
+            self.record_issue(*id, count0 + k, "tree_macro", &mut o.failures);
+            self.m.alloc(count0 + k, *id, 40 + k as u32);
+        }
+        if !o.failures.is_empty() {
+            return o;
+        }
+        let s = |k: usize| count0 + k;
+        if value_root {
+            if root != ids[0] {
+                o.failures.push(Failure::new(&["C15"], "tree_macro/returned-id", format!("{} returned {} but the root it created is {}", o.desc, idg(root), idg(ids[0]))));
+                return o;
+            }
+            self.m.insert(Kind::Append, s(0), s(1));
+            self.m.insert(Kind::Append, s(0), s(2));
+            self.m.insert(Kind::Append, s(2), s(3));
+        } else {
+            if root != under.id {
+                o.failures.push(Failure::new(&["C15"], "tree_macro/returned-id", format!("{} returned {} instead of the given root", o.desc, idg(root))));
+                return o;
+            }
+            self.m.insert(Kind::Append, under.slot, s(0));
+            self.m.insert(Kind::Append, under.slot, s(1));
+            self.m.insert(Kind::Append, s(1), s(2));
+            self.m.insert(Kind::Append, under.slot, s(3));
+        }
+        o.outcome = "ok +4".into();
+        o.failures = self.check_state("tree_macro", &["C15", "C07", "C03"]);
+        self.check_drops("tree_macro", vec![], &mut o.failures);
+        let key = fnv(&format!("tree_macro|{value_root}|{}", self.m.shape_marked(&[under.slot])));
+        for pr in ["C07", "C08", "C15"] {
+            o.nt.push((pr, key));
+        }
+        o
+    }
+
     /// allocation with the C06/C07 checks but without table observation
     fn do_new_light(&mut self, v: u32, _cfg: &StepCfg) -> StepOut {
         let mut o = StepOut::default();
@@ -1882,6 +1982,7 @@ impl<P: Payload> World<P> {
         if let Some(d) = dup {
             out.push(Failure::new(&["C08"], "finish/double-drop", format!("payload serial {d} was dropped more than once")));
         }
+        P::ctx_done(&ctx);
         out
     }
 }
